@@ -6,7 +6,7 @@ from c17lib import Mode, Plan
 
 META = {
     "category": "proof",
-    "text": "Lean theorems over an executable state-machine model of xz's file-pair protocol (coder_run / io_open_src / io_open_dest / coding loop / io_close; one step = one system call), for ALL option sets, fault functions, signal positions, foreign renames, coder schedules and ALL prefixes of every run (= every crash point): src_or_complete_target (the source inode exists, or the target created by this run holds the whole coder output and, with syncing on, file and directory are fsync'ed); unlink_src_last (unlink(source) only after futimens, fsync(file) ok, fsync(dir) ok, close(target) ok, complete content; never with -k/-c/--test/stdin); never_overwrite (without -f an existing target is never unlinked; O_EXCL); only_own_target_unlinked (every unlink(target) directly follows an lstat whose inode equals the fstat taken after creation); eintr_eagain_retry (only EINTR/EAGAIN/short counts and no signal => the finished run succeeded with exactly the coder output); failure_cleanup_partial (hard I/O error => run fails; failed run keeps the source, never attempts unlink(source), ends with non-zero status / signal / EPIPE); success_complete, write_layout. Tie: the real xz binary runs under an LD_PRELOAD interposer that injects an error / short count / EINTR / EAGAIN / signal / _exit / SIGKILL / foreign rename at EVERY system-call index of every mode; the observed call sequence, the end state of the directory and the exit status must equal the model's for that plan (trace inclusion), and each run is also judged directly against the property by an oracle that does not use the model.",
+    "text": "Lean theorems over an executable state-machine model of xz's file-pair protocol (coder_run / io_open_src / io_open_dest / coding loop / io_close; one step = one system call), for ALL option sets, fault functions, signal positions, foreign renames, coder schedules and ALL prefixes of every run (= every crash point): src_or_complete_target (the source inode exists, or the target created by this run holds the whole coder output and, with syncing on, file and directory are fsync'ed); unlink_src_last (unlink(source) only after futimens, fsync(file) ok, fsync(dir) ok, close(target) ok, complete content; never with -k/-c/--test/stdin); never_overwrite (without -f an existing target is never unlinked; O_EXCL); only_own_target_unlinked (every unlink(target) directly follows an lstat whose inode equals the fstat taken after creation); eintr_eagain_retry (only EINTR/EAGAIN/short counts and no signal => the finished run succeeded with exactly the coder output); failure_cleanup (hard I/O error => run fails; a failed run keeps the source, never attempts unlink(source), ends with non-zero status / signal / EPIPE, and - absent foreign renames - has unlinked the target it created unless fstat/lstat/unlink of it were made to fail); success_complete, write_layout. Tie: the real xz binary runs under an LD_PRELOAD interposer that injects an error / short count / EINTR / EAGAIN / signal / _exit / SIGKILL / foreign rename at EVERY system-call index of every mode; the observed call sequence, the end state of the directory and the exit status must equal the model's for that plan (trace inclusion), and each run is also judged directly against the property by an oracle that does not use the model.",
     "note": "Trusted: Lean kernel (+propext/Classical.choice/Quot.sound), the interposer, the Python canonicaliser and oracle, POSIX semantics as encoded in the model's FS. liblzma is abstract in the model (a schedule of I/O requests taken from a fault-free run). Not shown: that the kernel honours fsync.",
     "technique": "Lean 4 proof over an executable model + system-call trace inclusion under injected faults (LD_PRELOAD)",
 }
